@@ -592,15 +592,14 @@ struct Scenario {
 fn scenarios(thorough: bool) -> Vec<Scenario> {
     let mut v = vec![Scenario { lean: false, with_break: true, name: "empty".into(), k: if thorough { 4 } else { 3 }, prefill: 0, bg_candidates: vec![], bg_budget: 0 }];
     for j in 0..=2usize {
-        v.push(Scenario {
-            lean: !thorough,
-            with_break: thorough,
-            name: format!("prefill-32768-minus-{j}"),
-            k: if thorough { 3 } else { 2 },
-            prefill: 32768 - j,
-            bg_candidates: if thorough { vec![0, 63, 64, 127, 128, 32765, 32766, 32767] } else { vec![0, 63, 64, 32767] },
-            bg_budget: if thorough { 2 } else { 1 },
-        });
+        if thorough {
+            // full alphabet with break, two requests alive, two background answers out of eight boundary ids
+            v.push(Scenario { lean: false, with_break: true, name: format!("prefill-32768-minus-{j}-full-k2"), k: 2, prefill: 32768 - j, bg_candidates: vec![0, 63, 64, 127, 128, 32765, 32766, 32767], bg_budget: 2 });
+            // three requests alive with the lean alphabet
+            v.push(Scenario { lean: true, with_break: false, name: format!("prefill-32768-minus-{j}-lean-k3"), k: 3, prefill: 32768 - j, bg_candidates: vec![0, 63, 64, 32767], bg_budget: 1 });
+        } else {
+            v.push(Scenario { lean: true, with_break: false, name: format!("prefill-32768-minus-{j}"), k: 2, prefill: 32768 - j, bg_candidates: vec![0, 63, 64, 32767], bg_budget: 1 });
+        }
     }
     v
 }
@@ -716,7 +715,7 @@ fn main() {
             all_fixpoint_flag.store(false, Ordering::Relaxed);
         }
         // thorough: second run with a different thread count must give identical counts (racy dedup guard)
-        if thorough && res.violations.is_empty() {
+        if thorough && res.violations.is_empty() && sc.prefill == 0 {
             let m2 = M::new(sc.k, sc.prefill, sc.bg_candidates.clone(), sc.bg_budget, sc.with_break, sc.lean);
             let res2 = bfs(&CatchModel(&m2), &BfsOpts { jobs: (jobs / 2).max(1) | 1, ..opts });
             if (res2.states, res2.transitions, res2.max_depth) != (res.states, res.transitions, res.max_depth) {
@@ -765,7 +764,7 @@ fn main() {
     r.note("scenarios", json!(per_scenario));
     r.note("fixpoint_all_scenarios", json!(all_fixpoint));
     r.set_exhaustive(all_fixpoint);
-    r.set_rule("E-BFS to a fixpoint over environment events {submit, write(allocate), respond(lookup + send through the returned handler), cancel, deliver-notice(orphan), consume, stray notice, answer a pre-filled background request, unsolicited frame(lookup)+break, break(into_handlers)} on the real ResponseHandlerMap; at most K requests alive at once; canonical form = per-request (phase, caller, stream, orphaned) with request ids relabelled by rank + the map's four collections read back through the hook (orphaning Instants dropped: they feed only old_orphans_count, which no event of this alphabet reads). transitions = evaluations. distinct_nontrivial = distinct states in which some stream has BOTH a response owed by the server and its caller's cancellation notice in flight. traces_validated_against_impl = event histories replayed step-checked on a fresh real map (BFS rebuilds every state from its history; thorough adds a full second run with another thread count).");
+    r.set_rule("E-BFS to a fixpoint over environment events {submit, write(allocate), respond(lookup + send through the returned handler), cancel, deliver-notice(orphan), consume, stray notice, answer a pre-filled background request, unsolicited frame(lookup)+break, break(into_handlers)} on the real ResponseHandlerMap; at most K requests alive at once; canonical form = per-request (phase, caller, stream, orphaned) with request ids relabelled by rank + the map's four collections read back through the hook (orphaning Instants dropped: they feed only old_orphans_count, which no event of this alphabet reads). transitions = evaluations. distinct_nontrivial = distinct states in which some stream has BOTH a response owed by the server and its caller's cancellation notice in flight. traces_validated_against_impl = event histories replayed step-checked on a fresh real map (BFS rebuilds every state from its history; thorough adds a full second run of the empty scenario with another thread count).");
     r.assume("request ids matter to the map only through equality (relabelling by rank is sound); OrphanageTracker timestamps are not part of the canonical form because none of the explored events reads them");
     r.assume("a spurious refusal (allocate fails while ids are free) or an id leak is not a C02 safety violation; a leak makes the space infinite and is reported as a machinery error, not a verdict");
     r_owned.finish();
